@@ -1,6 +1,9 @@
 use std::io::Error;
 use std::sync::Arc;
 
+#[cfg(saito_verif)]
+use crate::core::util::verif::RwLock;
+#[cfg(not(saito_verif))]
 use tokio::sync::RwLock;
 
 use crate::core::consensus::blockchain::Blockchain;
